@@ -1488,6 +1488,17 @@ class TLSConnection(TLSRecordLayer):
             assert isinstance(certificate_verify, CertificateVerify)
 
             signature_scheme = certificate_verify.signatureAlgorithm
+            # the verify bytes are computed before the scheme is checked
+            # against what we offered: a value that is not a signature scheme
+            # and whose hash byte names no hash must not reach the hash lookup
+            if SignatureScheme.toRepr(signature_scheme) is None and \
+                    HashAlgorithm.toRepr(signature_scheme[0]) in (None,
+                                                                  "none"):
+                for result in self._sendError(
+                        AlertDescription.illegal_parameter,
+                        "Unknown signature algorithm in server "
+                        "CertificateVerify"):
+                    yield result
             self.serverSigAlg = signature_scheme
 
             signature_context = KeyExchange.calcVerifyBytes((3, 4),
